@@ -162,7 +162,7 @@ func init() {
 	// bucket and written to with the same ids and different contents. Every item a read returns must be a
 	// row of the ledger that was asked.
 	register(Profile{Property: "C19", Name: "bucket-growth", Gen: func(r *RNG, seed uint64, tier string) (*Scenario, *ExploreCfg) {
-		sc := &Scenario{Property: "C19", Profile: "bucket-growth", Knobs: randomKnobs(r), Checks: []string{"isolation", "reads-stay-in-ledger", "replay", "statements-stay-in-ledger"}}
+		sc := &Scenario{Property: "C19", Profile: "bucket-growth", Knobs: randomKnobs(r), Checks: []string{"isolation", "reads-stay-in-ledger", "replay", "statements-stay-in-ledger", "reads-are-scoped"}}
 		g := &gen{r: r, sc: sc}
 		feats := ledgerFeatures(sc.Knobs)
 		sc.Setup = []Op{{ID: g.id("s"), Kind: KCreateLedger, Ledger: "g1", Feats: feats, Bucket: "grow"}}
